@@ -442,7 +442,8 @@ Definition fpr (s s' : vsock) : Prop :=
   v_emsg_limit s' = v_emsg_limit s /\ v_restart s' = v_restart s /\
   (exists k, v_sends s' = skipn k (v_sends s)) /\
   (exists l, v_out s' = l ++ v_out s /\ Forall nodata l) /\
-  v_rtte s' = v_rtte s /\ v_rto_retransmissions s' = v_rto_retransmissions s.
+  v_rtte s' = v_rtte s /\ v_rto_retransmissions s' = v_rto_retransmissions s /\
+  v_recovery s' = v_recovery s.
 
 Lemma fpr_refl : forall s, fpr s s.
 Proof.
@@ -452,8 +453,8 @@ Qed.
 
 Lemma fpr_trans : forall a b c, fpr a b -> fpr b c -> fpr a c.
 Proof.
-  unfold fpr. intros a b c (A1 & A2 & A3 & A4 & A5 & A6 & (k1 & A9) & (l1 & A10 & A11) & A12 & A13)
-    (B1 & B2 & B3 & B4 & B5 & B6 & (k2 & B9) & (l2 & B10 & B11) & B12 & B13).
+  unfold fpr. intros a b c (A1 & A2 & A3 & A4 & A5 & A6 & (k1 & A9) & (l1 & A10 & A11) & A12 & A13 & A14)
+    (B1 & B2 & B3 & B4 & B5 & B6 & (k2 & B9) & (l2 & B10 & B11) & B12 & B13 & B14).
   repeat split; try congruence.
   - exists (k1 + k2)%nat. rewrite B9, A9. apply skipn_add.
   - exists (l2 ++ l1). split; [rewrite B10, A10; apply app_assoc|].
@@ -464,9 +465,9 @@ Lemma fpr_same : forall s s' : vsock,
   v_segs s' = v_segs s -> v_opts s' = v_opts s -> v_now s' = v_now s -> v_env_now s' = v_env_now s ->
   v_emsg_limit s' = v_emsg_limit s -> v_restart s' = v_restart s -> v_sends s' = v_sends s ->
   v_out s' = v_out s -> v_rtte s' = v_rtte s ->
-  v_rto_retransmissions s' = v_rto_retransmissions s -> fpr s s'.
+  v_rto_retransmissions s' = v_rto_retransmissions s -> v_recovery s' = v_recovery s -> fpr s s'.
 Proof.
-  intros s s' E1 E2 E3 E4 E5 E6 E9 E10 E11 E12. unfold fpr. repeat split; auto.
+  intros s s' E1 E2 E3 E4 E5 E6 E9 E10 E11 E12 E13. unfold fpr. repeat split; auto.
   - exists 0%nat. exact E9.
   - exists []. split; [exact E10 | constructor].
 Qed.
@@ -826,9 +827,13 @@ Hypothesis I_fpr : forall s s', fpr s s' -> Iv s -> Iv s'.
 Hypothesis I_prog : forall (s : vsock) c tr ti, Iv s ->
   Iv (set_t_inactivity (set_t_retransmit (set_rto_retransmissions s c) tr) ti).
 Hypothesis I_ack : forall (s1 s2 : vsock) h res, Iv s1 -> pim_ack cci s1 h = Some (s2, res) -> Iv s2.
-Hypothesis I_calc : forall (s3 : vsock) hr hd rtt now segs' p rc rcx,
-  Iv s3 -> calc_pipe (v_segs s3) hr hd rtt now = Some (segs', p, rc) ->
-  Iv (set_recovering (VSockRec.set_segs s3 segs') rcx).
+Hypothesis I_calc : forall (s3 : vsock) rc hd rtt now segs' p recalc,
+  Iv s3 -> rv_phase (v_recovery s3) = Recovering rc ->
+  calc_pipe (v_segs s3) (rc_high_rxt rc) hd rtt now = Some (segs', p, recalc) ->
+  Iv (set_recovering (VSockRec.set_segs s3 segs')
+        {| rc_recovery_point := rc_recovery_point rc; rc_high_rxt := rc_high_rxt rc;
+           rc_total_retx := rc_total_retx rc; rc_pipe := p; rc_recalc := recalc;
+           rc_cwnd := rc_cwnd rc |}).
 
 Definition spI {X} (m : step X) : Prop :=
   match m with SOk s' _ => Iv s' | SErr s' e => Iv s' /\ nmax e | SPanic => True end.
@@ -898,7 +903,7 @@ Proof.
     destruct tr; cbn [spI].
     + destruct (wake_writer tx1) as [tx2 w]. cbn [spI]. eapply I_fpr; [|exact F2']. unfold add_wakes. fpr_leaf.
     + split; [eapply I_fpr; [|exact F2']; fpr_leaf | discriminate].
-  - intros s3 _ H3. destruct (rv_phase (v_recovery s3)); try exact H3.
+  - intros s3 _ H3. destruct (rv_phase (v_recovery s3)) eqn:Eph; try exact H3.
     destruct (calc_pipe _ _ _ _ _) as [[[sg pp] rcl]|] eqn:Ec; [|exact I].
     cbn [spI]. eapply I_calc; eauto.
 Qed.
@@ -1158,7 +1163,7 @@ Proof.
   - intros a c tr ti K. eapply CAP_eq; [| |exact K]; reflexivity.
   - intros s1 s2 h res [H1 H0] E. destruct (pim_ack_SP _ _ _ _ _ E H1) as (K1 & K2 & _).
     unfold CAP. rewrite K2. auto.
-  - intros s3 hr hd rtt now segs' p rc rcx [H1 H0] E. unfold CAP, set_recovering. vsimpl_goal.
+  - intros s3 rc hd rtt now segs' p recalc [H1 H0] _ E. unfold CAP, set_recovering. vsimpl_goal.
     split; [eapply calc_pipe_SP; eauto | exact H0].
 Qed.
 
@@ -1484,7 +1489,7 @@ Proof.
   - exact IA_fpr.
   - intros a c tr ti K. eapply IA_skr; [|exact K]. skr_leaf.
   - intros s1 s2 h res K E. eapply IA_skr; [eapply pim_ack_skr; exact E | exact K].
-  - intros s3 hr hd rtt now segs' p rc rcx K _. eapply IA_skr; [|exact K]. unfold set_recovering. skr_leaf.
+  - intros s3 rc hd rtt now segs' p recalc K _ _. eapply IA_skr; [|exact K]. unfold set_recovering. skr_leaf.
 Qed.
 
 (* the whole poll in the strict regime: NW and OUT at every Pending exit *)
